@@ -25,40 +25,48 @@ _Bool __CPROVER_uninterpreted_sp_valid(uint64_t, uint64_t, uint64_t);
 uint64_t __CPROVER_uninterpreted_tweak_x(uint64_t, uint64_t, uint64_t, uint64_t, uint64_t, uint64_t, uint64_t, uint64_t, uint64_t);
 _Bool __CPROVER_uninterpreted_tweak_ok(uint64_t, uint64_t, uint64_t, uint64_t, uint64_t, uint64_t, uint64_t, uint64_t);
 
+/* all helpers are loop-free so that harness unwind bounds do not depend on the models */
+#include <string.h>
 static uint64_t ld64(const uc *p) {
-  uint64_t r = 0;
-  for (int i = 0; i < 8; i++) r = (r << 8) | p[i];
-  return r;
+  return ((uint64_t)p[0] << 56) | ((uint64_t)p[1] << 48) | ((uint64_t)p[2] << 40) | ((uint64_t)p[3] << 32) |
+         ((uint64_t)p[4] << 24) | ((uint64_t)p[5] << 16) | ((uint64_t)p[6] << 8) | (uint64_t)p[7];
 }
 static void st64(uc *p, uint64_t v) {
-  for (int i = 7; i >= 0; i--) { p[i] = (uc)v; v >>= 8; }
+  p[0] = (uc)(v >> 56); p[1] = (uc)(v >> 48); p[2] = (uc)(v >> 40); p[3] = (uc)(v >> 32);
+  p[4] = (uc)(v >> 24); p[5] = (uc)(v >> 16); p[6] = (uc)(v >> 8); p[7] = (uc)v;
+}
+static int cmp32(const uc *a, const uc *b) {
+  uint64_t x, y;
+  x = ld64(a); y = ld64(b); if (x != y) return x < y ? -1 : 1;
+  x = ld64(a + 8); y = ld64(b + 8); if (x != y) return x < y ? -1 : 1;
+  x = ld64(a + 16); y = ld64(b + 16); if (x != y) return x < y ? -1 : 1;
+  x = ld64(a + 24); y = ld64(b + 24); if (x != y) return x < y ? -1 : 1;
+  return 0;
 }
 
 /* ---------------- generators and Pedersen commitments (33-byte encodings) -------------- */
 int rustsecp256k1zkp_v0_10_0_generator_parse(const void *ctx, uc *out64, const uc *in33) {
   uc b[33];
-  for (int i = 0; i < 33; i++) b[i] = in33[i]; /* the real parser reads 33 bytes unconditionally */
+  memcpy(b, in33, 33); /* the real parser reads 33 bytes unconditionally */
   if ((b[0] & 0xFE) != 10) return 0;
   if (!__CPROVER_uninterpreted_gen_valid(ld64(b + 1), ld64(b + 9), ld64(b + 17), ld64(b + 25), b[0])) return 0;
-  for (int i = 0; i < 33; i++) out64[i] = b[i];
-  for (int i = 33; i < 64; i++) out64[i] = 0;
+  memset(out64, 0, 64); memcpy(out64, b, 33);
   return 1;
 }
 int rustsecp256k1zkp_v0_10_0_generator_serialize(const void *ctx, uc *out33, const uc *gen64) {
-  for (int i = 0; i < 33; i++) out33[i] = gen64[i];
+  memcpy(out33, gen64, 33);
   return 1;
 }
 int rustsecp256k1zkp_v0_10_0_pedersen_commitment_parse(const void *ctx, uc *out64, const uc *in33) {
   uc b[33];
-  for (int i = 0; i < 33; i++) b[i] = in33[i];
+  memcpy(b, in33, 33);
   if ((b[0] & 0xFE) != 8) return 0;
   if (!__CPROVER_uninterpreted_comm_valid(ld64(b + 1), ld64(b + 9), ld64(b + 17), ld64(b + 25), b[0])) return 0;
-  for (int i = 0; i < 33; i++) out64[i] = b[i];
-  for (int i = 33; i < 64; i++) out64[i] = 0;
+  memset(out64, 0, 64); memcpy(out64, b, 33);
   return 1;
 }
 int rustsecp256k1zkp_v0_10_0_pedersen_commitment_serialize(const void *ctx, uc *out33, const uc *c64) {
-  for (int i = 0; i < 33; i++) out33[i] = c64[i];
+  memcpy(out33, c64, 33);
   return 1;
 }
 
@@ -66,24 +74,22 @@ int rustsecp256k1zkp_v0_10_0_pedersen_commitment_serialize(const void *ctx, uc *
 int rustsecp256k1_v0_10_0_ec_pubkey_parse(const void *ctx, uc *pk64, const uc *in, size_t len) {
   if (len == 33) {
     uc b[33];
-    for (int i = 0; i < 33; i++) b[i] = in[i];
+    memcpy(b, in, 33);
     if (b[0] != 2 && b[0] != 3) return 0;
     if (!__CPROVER_uninterpreted_pk_valid(ld64(b + 1), ld64(b + 9), ld64(b + 17), ld64(b + 25))) return 0;
-    for (int i = 0; i < 32; i++) pk64[i] = b[1 + i];
+    memset(pk64, 0, 64); memcpy(pk64, b + 1, 32);
     pk64[32] = b[0] & 1;
-    for (int i = 33; i < 64; i++) pk64[i] = 0;
     return 1;
   }
   if (len == 65) {
     uc b[65];
-    for (int i = 0; i < 65; i++) b[i] = in[i];
+    memcpy(b, in, 65);
     if (b[0] != 4 && b[0] != 6 && b[0] != 7) return 0;
     if (!__CPROVER_uninterpreted_pk_valid(ld64(b + 1), ld64(b + 9), ld64(b + 17), ld64(b + 25))) return 0;
     /* y must be the curve's y for x: abstracted to "its parity is the one the curve dictates or its negation" */
     if (b[0] != 4 && ((b[0] & 1) != (b[64] & 1))) return 0;
-    for (int i = 0; i < 32; i++) pk64[i] = b[1 + i];
+    memset(pk64, 0, 64); memcpy(pk64, b + 1, 32);
     pk64[32] = b[64] & 1;
-    for (int i = 33; i < 64; i++) pk64[i] = 0;
     return 1;
   }
   return 0;
@@ -93,7 +99,7 @@ int rustsecp256k1_v0_10_0_ec_pubkey_serialize(const void *ctx, uc *out, size_t *
   if (flags & (1u << 8)) {
     __CPROVER_assert(*outlen >= 33, "ec_pubkey_serialize: output buffer holds 33 bytes");
     out[0] = 2 | (pk64[32] & 1);
-    for (int i = 0; i < 32; i++) out[1 + i] = pk64[i];
+    memcpy(out + 1, pk64, 32);
     *outlen = 33;
     return 1;
   }
@@ -102,34 +108,26 @@ int rustsecp256k1_v0_10_0_ec_pubkey_serialize(const void *ctx, uc *out, size_t *
 }
 int rustsecp256k1_v0_10_0_ec_pubkey_cmp(const void *ctx, const uc *a, const uc *b) {
   if ((a[32] & 1) != (b[32] & 1)) return (a[32] & 1) < (b[32] & 1) ? -1 : 1;
-  for (int i = 0; i < 32; i++) {
-    if (a[i] != b[i]) return a[i] < b[i] ? -1 : 1;
-  }
-  return 0;
+  return cmp32(a, b);
 }
 
 /* ---------------- x-only keys: stored as x (32) -------------------------------------- */
 int rustsecp256k1_v0_10_0_xonly_pubkey_parse(const void *ctx, uc *out64, const uc *in32) {
   uc b[32];
-  for (int i = 0; i < 32; i++) b[i] = in32[i];
+  memcpy(b, in32, 32);
   if (!__CPROVER_uninterpreted_pk_valid(ld64(b), ld64(b + 8), ld64(b + 16), ld64(b + 24))) return 0;
-  for (int i = 0; i < 32; i++) out64[i] = b[i];
-  for (int i = 32; i < 64; i++) out64[i] = 0;
+  memset(out64, 0, 64); memcpy(out64, b, 32);
   return 1;
 }
 int rustsecp256k1_v0_10_0_xonly_pubkey_serialize(const void *ctx, uc *out32, const uc *pk64) {
-  for (int i = 0; i < 32; i++) out32[i] = pk64[i];
+  memcpy(out32, pk64, 32);
   return 1;
 }
 int rustsecp256k1_v0_10_0_xonly_pubkey_cmp(const void *ctx, const uc *a, const uc *b) {
-  for (int i = 0; i < 32; i++) {
-    if (a[i] != b[i]) return a[i] < b[i] ? -1 : 1;
-  }
-  return 0;
+  return cmp32(a, b);
 }
 int rustsecp256k1_v0_10_0_xonly_pubkey_from_pubkey(const void *ctx, uc *xonly64, int *parity, const uc *pk64) {
-  for (int i = 0; i < 32; i++) xonly64[i] = pk64[i];
-  for (int i = 32; i < 64; i++) xonly64[i] = 0;
+  memset(xonly64, 0, 64); memcpy(xonly64, pk64, 32);
   if (parity) *parity = pk64[32] & 1;
   return 1;
 }
@@ -138,7 +136,10 @@ static int tweak_model(uc *outx, int *parity, const uc *px, const uc *t) {
   uint64_t a0 = ld64(px), a1 = ld64(px + 8), a2 = ld64(px + 16), a3 = ld64(px + 24);
   uint64_t t0 = ld64(t), t1 = ld64(t + 8), t2 = ld64(t + 16), t3 = ld64(t + 24);
   if (!__CPROVER_uninterpreted_tweak_ok(a0, a1, a2, a3, t0, t1, t2, t3)) return 0;
-  for (int k = 0; k < 4; k++) st64(outx + 8 * k, __CPROVER_uninterpreted_tweak_x(a0, a1, a2, a3, t0, t1, t2, t3, (uint64_t)k));
+  st64(outx, __CPROVER_uninterpreted_tweak_x(a0, a1, a2, a3, t0, t1, t2, t3, 0));
+  st64(outx + 8, __CPROVER_uninterpreted_tweak_x(a0, a1, a2, a3, t0, t1, t2, t3, 1));
+  st64(outx + 16, __CPROVER_uninterpreted_tweak_x(a0, a1, a2, a3, t0, t1, t2, t3, 2));
+  st64(outx + 24, __CPROVER_uninterpreted_tweak_x(a0, a1, a2, a3, t0, t1, t2, t3, 3));
   *parity = (int)(__CPROVER_uninterpreted_tweak_x(a0, a1, a2, a3, t0, t1, t2, t3, 4) & 1);
   return 1;
 }
@@ -146,16 +147,15 @@ int rustsecp256k1_v0_10_0_xonly_pubkey_tweak_add(const void *ctx, uc *outpk64, c
   int parity;
   uc x[32];
   if (!tweak_model(x, &parity, internal64, tweak32)) return 0;
-  for (int i = 0; i < 32; i++) outpk64[i] = x[i];
+  memset(outpk64, 0, 64); memcpy(outpk64, x, 32);
   outpk64[32] = (uc)parity;
-  for (int i = 33; i < 64; i++) outpk64[i] = 0;
   return 1;
 }
 int rustsecp256k1_v0_10_0_xonly_pubkey_tweak_add_check(const void *ctx, const uc *tweaked32, int tweaked_parity, const uc *internal64, const uc *tweak32) {
   int parity;
   uc x[32];
   if (!tweak_model(x, &parity, internal64, tweak32)) return 0;
-  for (int i = 0; i < 32; i++) if (x[i] != tweaked32[i]) return 0;
+  if (cmp32(x, tweaked32) != 0) return 0;
   return parity == tweaked_parity;
 }
 
@@ -164,13 +164,9 @@ static const uc CURVE_ORDER[32] = {
   0xFF,0xFF,0xFF,0xFF,0xFF,0xFF,0xFF,0xFF,0xFF,0xFF,0xFF,0xFF,0xFF,0xFF,0xFF,0xFE,
   0xBA,0xAE,0xDC,0xE6,0xAF,0x48,0xA0,0x3B,0xBF,0xD2,0x5E,0x8C,0xD0,0x36,0x41,0x41};
 int rustsecp256k1_v0_10_0_ec_seckey_verify(const void *ctx, const uc *sk32) {
-  int nonzero = 0, lt = 0, decided = 0;
-  for (int i = 0; i < 32; i++) {
-    uc b = sk32[i];
-    if (b) nonzero = 1;
-    if (!decided && b != CURVE_ORDER[i]) { lt = b < CURVE_ORDER[i]; decided = 1; }
-  }
-  return nonzero && decided && lt;
+  uc z[32];
+  memset(z, 0, 32);
+  return cmp32(sk32, z) != 0 && cmp32(sk32, CURVE_ORDER) < 0;
 }
 
 /* ---------------- proofs: opaque non-empty blobs, validity uninterpreted ------------- */
